@@ -207,7 +207,7 @@ def main(tier: str) -> int:
         behs, _ = writer.simulate(c, num=3, hist_len=8, seed=seed + 17)
         for beh in behs:
             valid.append(writer.replay_stepwise(beh, c, writer.Subst(), frame_size=3)["bytes"])
-    for _ in range(800 if tier == "quick" else 60000):
+    for _ in range(800 if tier == "quick" else 20000):
         base = rnd.choice(valid)
         data = perturb(base, rnd)
         if rnd.random() < 0.3:
